@@ -1847,7 +1847,21 @@ def apply_fault(ctx, where, metas, educed):
     elif k == 'dup_trait':
         metas.append(t)
     elif k == 'dup_trait_item':
-        metas = [m for m in metas if not m.startswith(t)] + pick(r, [['%s(ignore)' % t, '%s = false' % t], [t, t], ['%s()' % t, t], [t, '%s = false' % t]])
+        # the same trait twice on one item, each entry in a form that is VALID there on its own (so that the first
+        # one is accepted and only the repetition is wrong), or the generic forms
+        valid = {('Debug', 'variant'): ['Debug = A', 'Debug(name = B)', 'Debug(named_field = true)', 'Debug(name = false)', 'Debug = "C"'],
+                 ('Debug', 'field'): ['Debug = false', 'Debug(ignore)', 'Debug(method(m))', 'Debug(ignore = false)'],
+                 ('Clone', 'field'): ['Clone(method(m))', 'Clone(method = n)'],
+                 ('Default', 'variant'): ['Default', 'Default'],
+                 ('Default', 'field'): ['Default = 1', 'Default(expression = 2)', 'Default(expr(3))'],
+                 ('Deref', 'field'): ['Deref', 'Deref'], ('DerefMut', 'field'): ['DerefMut', 'DerefMut']}
+        for tt in ('PartialEq', 'Eq', 'PartialOrd', 'Ord', 'Hash'):
+            valid[(tt, 'field')] = ['%s(ignore)' % tt, '%s = false' % tt, '%s(method(m))' % tt, '%s(ignore = false)' % tt]
+        if (t, where) in valid and r.random() < 0.6:
+            two = [pick(r, valid[(t, where)]), pick(r, valid[(t, where)])]
+        else:
+            two = pick(r, [['%s(ignore)' % t, '%s = false' % t], [t, t], ['%s()' % t, t], [t, '%s = false' % t]])
+        metas = [m for m in metas if not m.startswith(t)] + two
     elif k == 'dup_trait_item_empty':
         # the same trait twice on one item, each in a form that is accepted there on its own
         metas = [m for m in metas if not m.startswith(t)] + ['%s()' % t, pick(r, ['%s()' % t, '%s( )' % t])]
@@ -1862,7 +1876,9 @@ def apply_fault(ctx, where, metas, educed):
         metas.append(t)
     elif k == 'variant_bound':
         metas.append('%s(bound(*))' % t)
-    ctx.fault = '%s@%s' % (k, where)
+    # the label names the trait where the construct is about one: the stratified tests want every (kind, trait, place)
+    ctx.fault = ('%s:%s@%s' % (k, t, where)) if k in ('unknown_param', 'dup_param', 'bad_form', 'dup_trait', 'dup_trait_item', 'dup_trait_item_empty',
+                                                       'bound_nonlit', 'variant_flag', 'variant_bound') else '%s@%s' % (k, where)
     return metas
 
 # ---------------------------------------------------------------- the case generator
